@@ -305,4 +305,85 @@ example : ∃ rks, CacheOk S2T.Gen.Aes.tables [(List.range 16, rks)] := by
 /-- the rejection hypotheses: a 15-byte key, a 17-byte message -/
 example : ([] : List Nat).length % 16 = 0 ∧ (List.range 15).length ≠ 16 ∧ (List.range 17).length % 16 ≠ 0 := by decide
 
+/-! ## 6. the translated source functions themselves (end to end)
+
+§4 is about the hand model at the generated tables; `Props/C20_Src.lean` proves the functions re-translated
+from `aes.py` on every run equal to that model.  Composed here: `aes_ecb_encrypt`, `aes_ecb_decrypt`,
+`aes_cbc_encrypt`, `aes_cbc_decrypt` **as the source has them now** compute SP 800-38A over FIPS-197 AES, invert
+each other, and reject wrong lengths with `ValueError` only. -/
+section src
+open S2T.Py S2T.Gen.PyAes S2T.C20.Src
+
+
+/-- **C20 at the source level.** The four mode functions re-translated from `aes.py` on every run compute
+    SP 800-38A ECB / CBC over FIPS-197 AES: every key of 16/24/32 bytes, every IV block, every list of blocks. -/
+theorem C20_src_functions {key iv : List Nat} {bs : List (List Nat)} (hk : KeyOk key) (hiv : Block iv) (hbs : Blocks bs) :
+    aes_ecb_encrypt key bs.flatten = .ok (Fips197.ecbEncrypt key bs).flatten ∧
+    aes_ecb_decrypt key bs.flatten = .ok (Fips197.ecbDecrypt key bs).flatten ∧
+    aes_cbc_encrypt key iv bs.flatten = .ok (Fips197.cbcEncrypt key iv bs).flatten ∧
+    aes_cbc_decrypt key iv bs.flatten = .ok (Fips197.cbcDecrypt key iv bs).flatten := by
+  have hd := isBytes_flatten hbs
+  obtain ⟨h1, h2, h3, h4⟩ := C20_src_modes hk hiv hbs
+  refine ⟨?_, ?_, ?_, ?_⟩
+  · rw [aes_ecb_encrypt_eq hk.2 hd]; show liftV _ (aesEcbEncrypt S2T.Gen.Aes.tables key bs.flatten) = _; rw [h1]; rfl
+  · rw [aes_ecb_decrypt_eq hk.2 hd]; show liftV _ (aesEcbDecrypt S2T.Gen.Aes.tables key bs.flatten) = _; rw [h2]; rfl
+  · rw [aes_cbc_encrypt_eq hk.2 hiv.2 hd]; show liftV _ (aesCbcEncrypt S2T.Gen.Aes.tables key iv bs.flatten) = _; rw [h3]; rfl
+  · rw [aes_cbc_decrypt_eq hk.2 hiv.2 hd]; show liftV _ (aesCbcDecrypt S2T.Gen.Aes.tables key iv bs.flatten) = _; rw [h4]; rfl
+
+/-- **C20 at the source level (inverse).** On the translated functions, decryption undoes encryption: every
+    key, every IV block, every block-aligned byte string. -/
+theorem C20_src_inverse {key iv d : List Nat} (hk : KeyOk key) (hiv : Block iv) (hd : IsBytes d)
+    (hl : d.length % 16 = 0) :
+    (∃ c, aes_ecb_encrypt key d = .ok c ∧ aes_ecb_decrypt key c = .ok d) ∧
+    (∃ c, aes_cbc_encrypt key iv d = .ok c ∧ aes_cbc_decrypt key iv c = .ok d) := by
+  constructor
+  · obtain ⟨c, h1, _, hc, h2⟩ := C20_ecb_inverse C20_tables hk hd hl
+    refine ⟨c, ?_, ?_⟩
+    · rw [aes_ecb_encrypt_eq hk.2 hd]; show liftV _ (aesEcbEncrypt S2T.Gen.Aes.tables key d) = _; rw [h1]; rfl
+    · rw [aes_ecb_decrypt_eq hk.2 hc]; show liftV _ (aesEcbDecrypt S2T.Gen.Aes.tables key c) = _; rw [h2]; rfl
+  · obtain ⟨c, h1, hc, h2⟩ := C20_cbc_inverse C20_tables hk hiv hd hl
+    refine ⟨c, ?_, ?_⟩
+    · rw [aes_cbc_encrypt_eq hk.2 hiv.2 hd]; show liftV _ (aesCbcEncrypt S2T.Gen.Aes.tables key iv d) = _; rw [h1]; rfl
+    · rw [aes_cbc_decrypt_eq hk.2 hiv.2 hc]; show liftV _ (aesCbcDecrypt S2T.Gen.Aes.tables key iv c) = _; rw [h2]; rfl
+
+private theorem ite_cls {c : Prop} [Decidable c] {a b : Py.Exc} {s : String} (ha : a.cls = s) (hb : b.cls = s) :
+    (if c then a else b).cls = s := by split <;> assumption
+
+/-- **C20 at the source level (rejection).** With a wrong data, key or IV length the translated functions raise
+    `ValueError` and nothing else, whatever the byte values. -/
+theorem C20_src_lengths_reject {key iv data : List Nat} (hk : IsBytes key) (hiv : IsBytes iv) (hd : IsBytes data) :
+    ((data.length % 16 ≠ 0 ∨ (key.length ≠ 16 ∧ key.length ≠ 24 ∧ key.length ≠ 32)) →
+      (∃ e, aes_ecb_encrypt key data = .error e ∧ e.cls = "ValueError") ∧
+      (∃ e, aes_ecb_decrypt key data = .error e ∧ e.cls = "ValueError")) ∧
+    ((iv.length ≠ 16 ∨ data.length % 16 ≠ 0 ∨ (key.length ≠ 16 ∧ key.length ≠ 24 ∧ key.length ≠ 32)) →
+      (∃ e, aes_cbc_encrypt key iv data = .error e ∧ e.cls = "ValueError") ∧
+      (∃ e, aes_cbc_decrypt key iv data = .error e ∧ e.cls = "ValueError")) := by
+  obtain ⟨hE, hC⟩ := C20_lengths_reject S2T.Gen.Aes.tables key iv data
+  have cls : ∀ fn bf, (ecbExc fn bf key data).cls = "ValueError" := by
+    intro fn bf; unfold ecbExc; exact ite_cls rfl (ite_cls rfl rfl)
+  have cls2 : ∀ fn bf, (cbcExc fn bf key iv data).cls = "ValueError" := by
+    intro fn bf; unfold cbcExc; exact ite_cls rfl (ite_cls rfl (ite_cls rfl rfl))
+  constructor
+  · intro h
+    obtain ⟨h1, h2⟩ := hE h
+    constructor
+    · refine ⟨_, ?_, cls "aes_ecb_encrypt" "_aes_encrypt_block"⟩
+      rw [aes_ecb_encrypt_eq hk hd]; show liftV _ (aesEcbEncrypt S2T.Gen.Aes.tables key data) = _; rw [h1]; rfl
+    · refine ⟨_, ?_, cls "aes_ecb_decrypt" "_aes_decrypt_block"⟩
+      rw [aes_ecb_decrypt_eq hk hd]; show liftV _ (aesEcbDecrypt S2T.Gen.Aes.tables key data) = _; rw [h2]; rfl
+  · intro h
+    obtain ⟨h1, h2⟩ := hC h
+    constructor
+    · refine ⟨_, ?_, cls2 "aes_cbc_encrypt" "_aes_encrypt_block"⟩
+      rw [aes_cbc_encrypt_eq hk hiv hd]; show liftV _ (aesCbcEncrypt S2T.Gen.Aes.tables key iv data) = _; rw [h1]; rfl
+    · refine ⟨_, ?_, cls2 "aes_cbc_decrypt" "_aes_decrypt_block"⟩
+      rw [aes_cbc_decrypt_eq hk hiv hd]; show liftV _ (aesCbcDecrypt S2T.Gen.Aes.tables key iv data) = _; rw [h2]; rfl
+
+/-! ### Non-vacuity: the statements instantiated at the SP 800-38A plaintext blocks, a 24-byte key, and bad lengths -/
+example : aes_ecb_encrypt (List.range 24) Kat.pt.flatten = .ok (Fips197.ecbEncrypt (List.range 24) Kat.pt).flatten :=
+  (C20_src_functions (iv := List.replicate 16 0) (by decide) (by decide) (by decide)).1
+example : ∃ e, aes_cbc_decrypt (List.range 15) (List.range 16) (List.range 32) = .error e ∧ e.cls = "ValueError" :=
+  ((C20_src_lengths_reject (by decide) (by decide) (by decide)).2 (Or.inr (Or.inr (by decide)))).2
+end src
+
 end S2T.C20
